@@ -89,6 +89,8 @@ type iteration struct {
 	includeMemStore bool
 	onValue         func(bytemap.ByteMap, []encoding.Sequence) (more bool, err error)
 	fieldMappings   map[int]int
+	guard           core.TimeoutGuard
+	err             error
 	offsetsCh       chan common.OffsetsBySource
 	errCh           chan error
 }
@@ -436,7 +438,6 @@ func (db *DB) processIterations() {
 }
 
 func (db *DB) doProcessIterations(iterations []*iteration) {
-	var maxDeadline time.Time
 	includeMemStore := false
 	allOutFields := make(core.Fields, 0)
 	hasOutField := func(field core.Field) bool {
@@ -450,10 +451,8 @@ func (db *DB) doProcessIterations(iterations []*iteration) {
 
 	for _, it := range iterations {
 		includeMemStore = includeMemStore || it.includeMemStore
-		deadline, hasDeadline := it.ctx.Deadline()
-		if hasDeadline && deadline.After(maxDeadline) {
-			maxDeadline = deadline
-		}
+		// each iteration is held to its own deadline only
+		it.guard = core.Guard(it.ctx)
 		// default outFields to table fields
 		if it.outFields == nil {
 			it.outFields = it.t.fields
@@ -490,13 +489,15 @@ func (db *DB) doProcessIterations(iterations []*iteration) {
 					itVals[itI] = val
 				}
 			}
-			itMore, err := it.onValue(dims, itVals)
+			itMore, err := it.guard.ProceedAfter(it.onValue(dims, itVals))
 			if err != nil {
 				it.t.log.Errorf("Error while iterating: %v", err)
-				return false, err
 			}
-			if !itMore {
-				// This iteration doesn't want any more data, stop feeding it
+			if !itMore || err != nil {
+				// This iteration doesn't want any more data, has failed or has timed
+				// out: stop feeding it and remember its own outcome, but keep
+				// scanning for the others
+				it.err = err
 				delete(remainingIterations, i)
 			} else {
 				more = true
@@ -505,19 +506,17 @@ func (db *DB) doProcessIterations(iterations []*iteration) {
 		return more, nil
 	}
 
-	newCtx := context.Background()
-	if !maxDeadline.IsZero() {
-		var cancel context.CancelFunc
-		newCtx, cancel = context.WithDeadline(newCtx, maxDeadline)
-		defer cancel()
-	}
-	offsetsBySource, err := iterations[0].t.rowStore.iterate(newCtx, allOutFields, includeMemStore, combinedOnValue)
+	offsetsBySource, err := iterations[0].t.rowStore.iterate(context.Background(), allOutFields, includeMemStore, combinedOnValue)
 	if err != nil {
 		iterations[0].t.log.Errorf("Got error while iterating: %v", err)
 	}
-	for _, it := range iterations {
+	for i, it := range iterations {
+		if _, unfinished := remainingIterations[i]; unfinished {
+			// the scan itself ended before this iteration did
+			it.err = err
+		}
 		it.offsetsCh <- offsetsBySource
-		it.errCh <- err
+		it.errCh <- it.err
 	}
 }
 
